@@ -159,7 +159,16 @@ def _shard(arg):
         n_b = 1 if draw(st.integers(0, 7)) == 0 else draw(st.integers(4, max_b))
         n_o = 1 if draw(st.integers(0, 9)) == 0 else draw(st.integers(2, max_o))
         n_t = draw(st.integers(2, 5))
-        while n_b * n_o * n_t > 1500:
+        if draw(st.integers(0, 23)) == 0:
+            # occasionally a large position grid (more than 500 position cells) with a small rotation grid
+            n_b = draw(st.sampled_from([4, 5]))
+            n_o = draw(st.integers(101, 140))
+            n_t = draw(st.integers(5, 6)) if n_o * 5 > 500 else 6
+        while n_b * n_o * n_t > 4300:
+            n_t = max(2, n_t - 1)
+            if n_b * n_o * n_t > 4300:
+                n_o = max(1, n_o // 2)
+        while n_b * n_o * n_t > 1500 and not (n_b <= 5 and n_o > 100):
             n_t = max(2, n_t - 1)
             if n_b * n_o * n_t > 1500:
                 n_o = max(1, n_o // 2)
@@ -183,7 +192,8 @@ def _shard(arg):
             nt = len(case["radii"])
             res.case(sample=case, nontrivial=case["n_b"] >= 4 and case["n_o"] >= 4 and nt >= 2, key=case,
                      classes=[f"b={case['b_alg'] if case['n_b'] > 1 else 'zero4D'}", f"o={case['o_alg'] if case['n_o'] > 1 else 'zero3D'}",
-                              "cartesian" if case["cartesian"] else "spherical", "f=1" if case["factor"] == 1 else "f!=1"])
+                              "cartesian" if case["cartesian"] else "spherical", "f=1" if case["factor"] == 1 else "f!=1"]
+                     + (["more_than_500_position_cells"] if case["n_o"] * nt > 500 else []))
             rest = []
             for tag, msg in found:
                 if known is not None and tag in ("pattern", "positive"):
@@ -208,7 +218,7 @@ def run(tier):
     res = merge_results(pmap(_shard, [(s, total // 16, max_b, max_o) for s in range(16)]))
     rule = (f"Hypothesis: rotation grid zero4D_1 or cube4D/randomQ with N in 4..{max_b}; direction grid zero3D_1 or ico/cube3D/randomS "
             f"with N in 2..{max_o}; 2..5 increasing radii with non-uniform spacing; radii over several length scales (1e-5 .. 100 nm); factor in {{1, 2, 0.25, 0.5, 1.5, 3, 4, 0.731, 1e-3, 1e-4, 1e3, 37.5}}; both "
-            f"position modes (Cartesian only for n_o>=3); at most 1500 cells. Every pair of cells judged (dense n x n). Non-trivial = "
+            f"position modes (Cartesian only for n_o>=3); at most 1500 cells, except roughly one case in twenty with more than 500 position cells and 4..5 rotations (up to 4200 cells). Every pair of cells judged (dense n x n). Non-trivial = "
             f"n_b>=4, n_o>=4, n_t>=2 (both neighbour families present); distinct = distinct specification.")
     return res, rule, {"assumptions": ["n_b in {2,3} is outside the property's quantifier and not generated",
                                        "component quantities come from separately constructed PositionGrid / rotation grid objects; "
